@@ -230,6 +230,25 @@ def run(F, rep):
     from engines import rule_visit_all
     rule_visit_all(F, rep, 'C17.Y1', lambda g: g.file.endswith('/generator.cpp'), 8, 'generator.cpp')
 
+    # ------------------------------------------------------------------ D: numbers in the generated code
+    rep.rule('C17.D1', 'generateDoubleCode, which turns the text of a CellML real number into a floating-point literal of the target language, looks for the exponent under BOTH spellings the CellML grammar allows (e and E) '
+                       'and for the decimal point: an exponent it does not see gets ".0" appended after it (1E5 -> 1E5.0, not a number in C or Python)')
+    gd = F.fn1('libcellml::generateDoubleCode')
+    chars = set()
+    for c in gd.walk():
+        if c.get('k') == 'Call' and c.get('mc') and c.get('fn') in ('find', 'find_first_of', 'rfind', 'find_last_of'):
+            for a in c['c'][1:]:
+                for x in walk(a):
+                    if x.get('k') == 'Char':
+                        v = x.get('v')
+                        chars.add(chr(v) if isinstance(v, int) else str(v).strip("'"))
+                    elif x.get('k') == 'Str':
+                        chars |= set(str(x.get('v', '')).strip('"'))
+    if not chars:
+        raise AnalysisBroken('generateDoubleCode: no character search found')
+    rep.check({'e', 'E'} <= chars, 'C17.D1', 'generateDoubleCode|exponent letters', gd.where(), 'generateDoubleCode searches for %s only: the exponent letter %s of a CellML real is not recognised' % (sorted(chars), sorted({'e', 'E'} - chars)), 'searches for %s' % sorted(chars))
+    rep.check('.' in chars, 'C17.D1', 'generateDoubleCode|decimal point', gd.where(), 'generateDoubleCode does not look for a decimal point', 'decimal point looked for')
+
     # ------------------------------------------------------------------ clause shared with C03: a profile switched with setProfile() equals a fresh one
     if not getattr(rep, 'nested', False):
         import core
